@@ -162,7 +162,8 @@ def accept_tables(prog, fn_path, sites="ok", alias=None, limit=20000):
     """One Table per accept site (Ok(..) / Some(..) assignment to the return place)."""
     body = prog.body(fn_path)
     an = analysis(prog, body)
-    sy = Sym(prog, an)
+    sp = 1 if body.argc >= 1 and body.locals[1]["ty"].get("k") == "ref" and body.locals[1]["ty"]["t"].get("k") in ("slice", "str") else 99
+    sy = Sym(prog, an, slice_param=sp)
     targets = an.ok_sites() if sites == "ok" else an.some_sites()
     out = []
     for bb, t in targets:
